@@ -11,6 +11,9 @@ Decides:
                   Ok(None) arm, and its Ok values come only from take_arg or the environment read.
  J  single conversion  ParseArgument::eval converts whatever take_argument returned with one parse_os_str
                   call (env and command-line values share conversion and validation).
+ R  repetition    a repeated item (many/some/last/count/collect) hands parse_option one counter for the whole repetition, so
+                  the extra evaluation that finds nothing on the line and falls back to the variable does not count as
+                  an occurrence and cannot override or follow the values from the line (shared with C06.K5).
  M  both absent   the absent exits build Missing(item) or NoEnv(name); both are catchable (defaults apply).
 Does not decide: behaviour of the wrappers around an env-backed item (C06)."""
 import re
@@ -23,7 +26,7 @@ LEVEL = 'other'
 EXPLANATION = __doc__
 ASSUMPTIONS = ['std::env::var_os returns the current value of exactly the named variable',
                'the supports-color crate only influences whether colours are printed']
-FLOORS = {'W.who-may-read': 6, 'P.name-provenance': 3, 'F.flag-precedence': 3, 'A.argument-precedence': 3, 'J.single-conversion': 3, 'M.both-absent': 4}
+FLOORS = {'W.who-may-read': 6, 'P.name-provenance': 3, 'F.flag-precedence': 4, 'A.argument-precedence': 4, 'J.single-conversion': 3, 'M.both-absent': 4, 'R.repetition': 5}
 
 ENV_TABLE = {
     # (function, env fn) -> reason
@@ -55,6 +58,8 @@ def run(ctx):
         ctx.guard(flag, ctx, cfg, fs)
         ctx.guard(argument, ctx, cfg, fs)
         ctx.guard(absent, ctx, cfg, fs)
+        import c06
+        ctx.guard(c06.len_threaded, ctx, cfg, fs, 'R.repetition')
 
 def outer(path):
     return path.split('::{closure')[0]
@@ -144,6 +149,51 @@ def env_lookup_sites(fs, body):
             out.append((b, roots))
     return out
 
+ALL_ELEMENTS = r'Iterator>?::(find_map|any|find|filter_map|map|all|for_each|try_for_each|flat_map|position|fold|try_fold)$'
+ONE_ELEMENT = r'Option::<.*>::(and_then|map|map_or|map_or_else|filter|is_some_and)$'
+
+def env_coverage(fs, body):
+    """for every environment read of `body`: does it visit ALL declared names (an iterator over the whole env list
+    drives it) or just one (first()/get()/index)?  -> list of (block, 'all' | 'one' | '?', detail)"""
+    out = []
+    NOFIRST = DEFAULT_THROUGH + [r'core::slice::<impl \[T\]>::iter$', r'as std::iter::IntoIterator>::into_iter$', r'as std::iter::Iterator>::(copied|cloned|by_ref)$']
+    def receiver_kind(b, call):
+        rs = provenance(b, call.args[0], call.bb, 'term', through=NOFIRST)
+        if rs and all((r.kind in ('param', 'upvar')) and 'env' in (r.path or [r.what]) for r in rs):
+            return 'list'
+        if rs and all(r.kind == 'call' and r.call.is_(r'slice::<impl \[T\]>::(first|last|get)$', r'Vec::<.*>::(first|last|get)$', r'Iterator>?::(next|last|nth)$') for r in rs):
+            return 'element'
+        return '?'
+    def classify(b, call):
+        if call is None:
+            return '?', 'lookup not attached to a call'
+        if call.is_(ALL_ELEMENTS):
+            k = receiver_kind(b, call)
+            return ('all' if k == 'list' else 'one' if k == 'element' else '?'), '%s over %s' % (call.name.split('::')[-1], k)
+        if call.is_(ONE_ELEMENT):
+            return 'one', '%s on a single element' % call.name.split('::')[-1]
+        return '?', 'handed to %s' % short(call.name)
+    for c in body.calls():
+        if any(re.match(r'^std::env::var(_os)?$', n) for n in c.names):
+            rs = provenance(body, c.args[0], c.bb, 'term', through=NOFIRST)
+            if rs and all(r.kind == 'call' and r.call.is_(r'Iterator>?::next$') for r in rs) and c.bb in reachable_edges(body, c.target or c.bb):
+                out.append((c.bb, 'all', 'looked up inside a loop over the names'))
+            elif body.kind == 'closure':
+                continue       # judged at the call that receives the closure
+            else:
+                out.append((c.bb, 'one' if rs and all(r.kind == 'call' for r in rs) else '?', 'direct lookup of %s' % sorted('%s:%s' % (r.kind, short(r.call.name) if r.kind == 'call' else r.what) for r in rs)))
+    for (bb, fn, full) in fn_refs(body):
+        if re.match(r'^std::env::var(_os)?$', fn):
+            v, d = classify(body, body.call_at(bb))
+            out.append((bb, v, d))
+    for clo in fs.closures_of(body):
+        if not env_lookup_sites(fs, clo):
+            continue
+        for (b_, call, st) in closure_pass_sites(fs, body, clo):
+            v, d = classify(body, call)
+            out.append((b_, v, d))
+    return out
+
 def env_lookup_blocks(fs, body):
     return sorted({b for (b, _) in env_lookup_sites(fs, body)})
 
@@ -165,6 +215,9 @@ def flag(ctx, cfg, fs):
     ctx.ob('F.flag-precedence', 'ParseFlag::eval:env-only-when-absent', ok,
            'the environment is consulted only on the edge where take_flag returned false (%d lookup site(s))' % len(envb),
            where=body.where(envb[0]) if envb else body.where(), cfg=cfg)
+    cov = env_coverage(fs, body)
+    ctx.ob('F.flag-precedence', 'ParseFlag::eval:every-declared-variable', bool(cov) and all(v == 'all' for (_, v, _) in cov),
+           'every variable declared with env() is consulted (a flag counts as present if ANY of them is set): %s' % [d for (_, _, d) in cov], where=body.where(), cfg=cfg)
     # present value is produced iff take_flag || env set: Ok(present) reachable from both, absent only from neither
     present_ok = []
     for i, k, st in body.stmts():
@@ -208,6 +261,9 @@ def argument(ctx, cfg, fs):
             detail = 'environment lookup is %sreachable from the Err arm and %sreachable from the Ok(Some) arm of take_arg' % (
                 '' if set(envb) & from_err else 'not ', '' if set(envb) & from_some else 'not ')
     ctx.ob('A.argument-precedence', 'take_argument:env-only-when-absent', ok, detail, where=body.where(envb[0]) if envb else body.where(), cfg=cfg)
+    cov = env_coverage(fs, body)
+    ctx.ob('A.argument-precedence', 'take_argument:every-declared-variable', bool(cov) and all(v == 'all' for (_, v, _) in cov),
+           'every variable declared with env() is consulted, in declaration order, until one is set: %s' % [d for (_, _, d) in cov], where=body.where(), cfg=cfg)
     # Ok values: only from take_arg or the env lookup
     srcs = set(); good = True
     for i, k, st in body.stmts():
